@@ -74,3 +74,75 @@ CONTRACTS = [
         native={'gen': _gen_new, 'build': _build_new},
     ),
 ]
+
+
+# ---- bounded-only ghost programs for the CPython-object-model half of C20 ---------------------------------------------
+def _gen_behaviour(rng, tier, variant):
+    """every value class x {0, 1, -1, huge, NaN, inf, -0.0, '', non-ASCII, b'', ...} x raw in {None, 0, 0.0, False,
+    '', b'', equal-but-differently-typed, random}"""
+    nan, inf = float('nan'), float('inf')
+    table = {
+        'IntParameter': ([0, 1, -1, 2 ** 70, -2 ** 70, 255], [0, 5, 2.5, -1]),
+        'FloatParameter': ([0.0, -0.0, 1.5, -3.25, 1e300, inf, -inf, nan, 3.0], [0, 0.5, -2, 3]),
+        'StrParameter': (['', 'a', 'héllo', '0', 'zz'], ['', 'b', 'a']),
+        'BinaryParameter': ([b'', b'\x00', b'abc', b'\xff\x00'], [b'', b'b']),
+        'BoolParameter': ([True, False, 1, 0], [0, 1, True]),
+    }
+    raws = [None, 0, 0.0, False, '', b'', 3, 3.0, 1, True, -7, 'x', b'\x01']
+    for cname, (vals, others) in table.items():
+        for v in vals:
+            for r in raws:
+                yield {'cls': cname, 'value': _enc(v), 'raw': _enc(r), 'others': [_enc(o) for o in others]}
+
+
+def _build_behaviour(r):
+    def make():
+        import space_packet_parser.common as c
+        return {'cls': getattr(c, r['cls']), 'value': _dec(r['value']), 'raw_value': _dec(r['raw']),
+                'others': [_dec(o) for o in r['others']]}
+    return {'make': make}
+
+
+def _gen_pktcopy(rng, tier, variant):
+    """packets with 0..9 items of all five value classes (falsy raw values included), raw data of 0..12 bytes,
+    every cursor position in {0, 1, 7, 8, 64, 8*len}"""
+    kinds = ['IntParameter', 'FloatParameter', 'StrParameter', 'BinaryParameter', 'BoolParameter']
+    samples = {'IntParameter': [(0, None), (5, 0), (-3, 2.5)], 'FloatParameter': [(0.0, 0), (2.5, 7), (3.0, 3)],
+               'StrParameter': [('', b''), ('LBL', 0)], 'BinaryParameter': [(b'', None), (b'\x00\x01', None)],
+               'BoolParameter': [(True, 1), (False, 0)]}
+    for n in range(0, 10):
+        for _ in range(6 if tier == 'quick' else 40):
+            items = []
+            for i in range(n):
+                k = rng.choice(kinds)
+                v, rw = rng.choice(samples[k])
+                items.append([f"P{i}", k, _enc(v), _enc(rw)])
+            ln = rng.randint(0, 12)
+            raw = bytes(rng.getrandbits(8) for _ in range(ln))
+            yield {'items': items, 'raw': raw.hex(), 'pos': rng.choice([0, 1, 7, 8, 64, 8 * ln])}
+
+
+def _build_pktcopy(r):
+    def make():
+        import space_packet_parser.common as c
+        items = [(n, getattr(c, k)(_dec(v), _dec(rw))) for n, k, v, rw in r['items']]
+        return {'items': items, 'raw': bytes.fromhex(r['raw']), 'pos': r['pos']}
+    return {'make': make}
+
+
+CONTRACTS += [
+    Contract(
+        target='ghost.c20_value_behaviour', props=['C20'],
+        params={}, requires=[], ensures={}, modifies=[],
+        native_only='operator tables, hashing, formatting, copy/deepcopy/pickle are CPython object-model behaviour '
+                    '(E10): bounded enumeration only',
+        native={'gen': _gen_behaviour, 'build': _build_behaviour},
+    ),
+    Contract(
+        target='ghost.c20_packet_copy', props=['C20'],
+        params={}, requires=[], ensures={}, modifies=[],
+        native_only='copy/deepcopy/pickle of dict and bytes subclasses is CPython object-model behaviour (E10): '
+                    'bounded enumeration only',
+        native={'gen': _gen_pktcopy, 'build': _build_pktcopy},
+    ),
+]
